@@ -72,3 +72,42 @@ package cobalt
 //@     invariant[C09.average] forall n string :: n in resp ==>
 //@            resp[n].Usage == (seen(n) ? pre(resp[n].Usage) / pre(resp[n].Weight) : pre(resp[n].Usage))
 //@         && resp[n].Rate  == (seen(n) ? pre(resp[n].Rate) / pre(resp[n].Weight) : pre(resp[n].Rate))
+
+//@ # ---------- remap: merging the plugins' engine parameters (C32) ----------
+//@ ufun pluginName(p ref) string
+//@ func (Plugin) Name
+//@   ensures result == pluginName(self)
+
+//@ # merging two parameter sets (string-slice values are concatenated): only that a successful merge yields a new,
+//@ # non-nil map is used here; the value-level merge is not examined
+//@ func (Manager) mergeEngineParams
+//@   safety off
+//@   ensures[C32.merge-fresh] result1 == nil ==> result0 != nil && fresh(result0) && allocated(result0)
+//@   loop 1:
+//@     modifies r
+//@     invariant r != nil && fresh(r) && allocated(r)
+//@   loop 2:
+//@     modifies r
+//@     invariant r != nil && fresh(r) && allocated(r)
+
+//@ # a section, once written for a workload and a plugin, is never dropped while the other plugins' answers are merged in,
+//@ # and every workload a plugin answered for ends up with that plugin's section
+//@ pred hasSection(m map[string]resourcetypes.Resources, w string, pn string) = w in m && m[w] != nil && pn in m[w]
+//@ func (Manager) Remap
+//@   partial loops
+//@   ensures[C32.remap-sections] result1 == nil ==> forall p ref, w string :: p in res(cobalt.call, 0) && w in res(cobalt.call, 0)[p].EngineParamsMap ==> hasSection(result0, w, pluginName(p))
+//@   loop 1:
+//@     modifies enginesParams, each r :: exists w string :: w in enginesParams && enginesParams[w] == r
+//@     invariant enginesParams != nil && fresh(enginesParams) && allocated(enginesParams)
+//@     invariant forall w string :: w in enginesParams ==> enginesParams[w] != nil && fresh(enginesParams[w]) && allocated(enginesParams[w]) && enginesParams[w] != enginesParams
+//@     invariant forall a, b string :: a in enginesParams && b in enginesParams && a != b ==> enginesParams[a] != enginesParams[b]
+//@     invariant forall w string :: w in enginesParams ==> sinceloop(enginesParams[w])
+//@     invariant forall p ref, w string :: seen(p) && w in resps[p].EngineParamsMap ==> hasSection(enginesParams, w, pluginName(p))
+//@   loop 2:
+//@     modifies enginesParams, each r :: exists w string :: w in enginesParams && enginesParams[w] == r
+//@     invariant enginesParams != nil && fresh(enginesParams) && allocated(enginesParams)
+//@     invariant forall w string :: w in enginesParams ==> enginesParams[w] != nil && fresh(enginesParams[w]) && allocated(enginesParams[w]) && enginesParams[w] != enginesParams
+//@     invariant forall a, b string :: a in enginesParams && b in enginesParams && a != b ==> enginesParams[a] != enginesParams[b]
+//@     invariant forall w string :: w in enginesParams ==> sinceloop(enginesParams[w]) || (pre(w in enginesParams) && enginesParams[w] == pre(enginesParams[w]))
+//@     invariant forall w string, pn string :: pre(hasSection(enginesParams, w, pn)) ==> hasSection(enginesParams, w, pn)
+//@     invariant forall w string :: seen(w) ==> hasSection(enginesParams, w, pluginName(plugin))
